@@ -146,7 +146,7 @@ func diagnose(w OneWalk, stepIdx int, inv bool, res *tlcrun.Result, forProp stri
 		// the concatenation of the chunks that C05 promises
 		prop, what = "C05", "data-call"
 	}
-	if what == "state" && prop != "C03" && 		(ev.St.From != x.St.From || ev.St.Rcpts != x.St.Rcpts || ev.St.Helo != x.St.Helo || ev.St.Session != x.St.Session || ev.St.Bdat != x.St.Bdat) {
+	if what == "state" && prop != "C03" && (ev.St.From != x.St.From || ev.St.Rcpts != x.St.Rcpts || ev.St.Helo != x.St.Helo || ev.St.Session != x.St.Session || ev.St.Bdat != x.St.Bdat) {
 		// greeting / session / envelope fields are C03's whatever the command was
 		// (only the first divergence of a trace is reported, so this one goes to
 		// the property whose check is running when it is one of the two)
